@@ -18,6 +18,8 @@ structure Encoder_St where
   f_cmpFrames : List Bytes
 deriving Repr, Inhabited
 
+def Encoder_default : Encoder_St := { f_minBytesPerMessage := 0, f_maxBytesPerMessage := 0, f_deviceId := 0, f_streamId := 0, f_cmpFrameTemplate := [], f_bytesLeft := 0, f_sequenceCounter := 0, f_messageType := 0, f_cmpFrames := [] }
+
 /-- `ASAM::CMP::Encoder::closeLastFrame` -/
 def Encoder_closeLastFrame_obj (s : Encoder_St)  : Option (Encoder_St × Unit) := do
   if (s.f_cmpFrames).isEmpty then
@@ -236,6 +238,8 @@ structure Packet_St where
   f_segmentType : Nat
 deriving Repr, Inhabited
 
+def Packet_default : Packet_St := { f_version := 1, f_deviceId := 0, f_streamId := 0, f_sequenceCounter := 0, f_timestamp := 0, f_interfaceId := 0, f_vendorId := 0, f_commonFlags := 0, f_segmentType := 0 }
+
 /-- `ASAM::CMP::Packet::getCommonFlag` -/
 def Packet_getCommonFlag_obj (s : Packet_St) (a_mask : Nat) : Option (Packet_St × Bool) := do
   pure (s, ((s.f_commonFlags &&& a_mask) != 0))
@@ -402,6 +406,8 @@ structure Decoder_SegmentedPacket_St where
   f_curSegment : Nat
 deriving Repr, Inhabited
 
+def Decoder_SegmentedPacket_default : Decoder_SegmentedPacket_St := { f_payload := [], f_segmentType := 0, f_curVersion := 0, f_curMessageType := 0, f_curSegment := 0 }
+
 /-- `ASAM::CMP::Decoder::SegmentedPacket::isValidSegmentType` -/
 def Decoder_SegmentedPacket_isValidSegmentType_obj (s : Decoder_SegmentedPacket_St) (a_type : Nat) : Option (Decoder_SegmentedPacket_St × Bool) := do
   let sw1 := s.f_segmentType
@@ -440,6 +446,13 @@ def Decoder_SegmentedPacket_addSegment_obj (s : Decoder_SegmentedPacket_St) (m :
         let s := { s with f_segmentType := v_type }
         pure (s, true)
 
+/-- `ASAM::CMP::Decoder::SegmentedPacket::getPacket` -/
+def Decoder_SegmentedPacket_getPacket_obj (s : Decoder_SegmentedPacket_St)  : Option (Decoder_SegmentedPacket_St × PktOut) := do
+  let t1 ← mkPacket s.f_curMessageType (s.f_payload.drop 0)
+  let v_packet := t1
+  let v_packet := { v_packet with version := s.f_curVersion }
+  pure (s, v_packet)
+
 /-- `ASAM::CMP::Decoder::SegmentedPacket::isAssembled` -/
 def Decoder_SegmentedPacket_isAssembled_obj (s : Decoder_SegmentedPacket_St)  : Option (Decoder_SegmentedPacket_St × Bool) := do
   pure (s, (s.f_segmentType == 12))
@@ -458,6 +471,127 @@ def Decoder_SegmentedPacket_SegmentedPacket_ctor_obj (s : Decoder_SegmentedPacke
   let s := { s with f_payload := t2 }
   pure (s, ())
 
-def Decoder_SegmentedPacket_untranslated : List (String × String) := [("ASAM::CMP::Decoder::SegmentedPacket::getHeader", "vector member used as a scalar lvalue"), ("ASAM::CMP::Decoder::SegmentedPacket::getPacket", "type std::shared_ptr<Packet>"), ("ASAM::CMP::Decoder::SegmentedPacket::operator=", "reference type ASAM::CMP::Decoder::SegmentedPacket &")]
+def Decoder_SegmentedPacket_untranslated : List (String × String) := [("ASAM::CMP::Decoder::SegmentedPacket::getHeader", "vector member used as a scalar lvalue"), ("ASAM::CMP::Decoder::SegmentedPacket::operator=", "reference type ASAM::CMP::Decoder::SegmentedPacket &")]
+
+/-- state of `ASAM::CMP::Decoder`: one field per data member -/
+structure Decoder_St where
+  f_segmentedPackets : SMap Decoder_SegmentedPacket_St
+deriving Repr, Inhabited
+
+def Decoder_default : Decoder_St := { f_segmentedPackets := [] }
+
+def Decoder_decode_loop1 (fuel : Nat) (s : Decoder_St) (m : Bytes) (a_data : Nat) (a_size : Nat) (v_dataPtr : Nat) (v_packets : List PktOut) (v_header : Nat) (v_deviceId : Nat) (v_streamId : Nat) (v_packetPtr : Nat) (v_curSize : Nat) (v_packet : PktOut) : Option (Decoder_St × List PktOut × Nat × Nat × PktOut) :=
+  match fuel with
+  | 0 => none
+  | fuel + 1 => do
+    if (slt 32 0 v_curSize) then
+      let t5 ← Packet_isValidPacket m v_packetPtr (sext 32 64 v_curSize)
+      if (!t5) then
+        let s := { s with f_segmentedPackets := mapErase s.f_segmentedPackets (v_deviceId, v_streamId) }
+        pure (s, v_packets, v_packetPtr, v_curSize, v_packet)
+      else
+        let t6 ← Decoder_isSegmentedPacket m v_packetPtr (sext 32 64 v_curSize)
+        if (!t6) then
+          let s := { s with f_segmentedPackets := mapErase s.f_segmentedPackets (v_deviceId, v_streamId) }
+          let t7 ← CmpHeader_getMessageType m v_header
+          let t8 ← mkPacket t7 (m.drop v_packetPtr)
+          let v_packet := t8
+          let t9 ← CmpHeader_getVersion m v_header
+          let v_packet := { v_packet with version := t9 }
+          let v_packet := { v_packet with deviceId := v_deviceId }
+          let v_packet := { v_packet with streamId := v_streamId }
+          let v_packets := v_packets ++ [v_packet]
+          let v_packetSize := (uadd 64 (pktPayloadLength v_packet) 16)
+          let v_packetPtr := (v_packetPtr + v_packetSize)
+          let t10 ← ssub 32 v_curSize (v_packetSize % 4294967296)
+          let v_curSize := t10
+          Decoder_decode_loop1 fuel s m a_data a_size v_dataPtr v_packets v_header v_deviceId v_streamId v_packetPtr v_curSize v_packet
+        else
+          let t11 ← Decoder_isFirstSegment m v_packetPtr (sext 32 64 v_curSize)
+          let (s, v_packets, v_packet) ← (if t11 then (do
+              let t12 ← CmpHeader_getVersion m v_header
+              let t13 ← CmpHeader_getMessageType m v_header
+              let t14 ← CmpHeader_getSequenceCounter m v_header
+              let (v_segmentedPacket, _) ← Decoder_SegmentedPacket_SegmentedPacket_ctor_obj Decoder_SegmentedPacket_default m v_packetPtr (sext 32 64 v_curSize) t12 t13 t14
+              let (mp_, _) := mapIndex s.f_segmentedPackets (v_deviceId, v_streamId) Decoder_SegmentedPacket_default
+              let s := { s with f_segmentedPackets := mapPut mp_ (v_deviceId, v_streamId) v_segmentedPacket }
+              pure (s, v_packets, v_packet))
+            else (do
+              let t15 ← CmpHeader_getVersion m v_header
+              let t16 ← CmpHeader_getMessageType m v_header
+              let t17 ← CmpHeader_getSequenceCounter m v_header
+              let (mp_, el19) := mapIndex s.f_segmentedPackets (v_deviceId, v_streamId) Decoder_SegmentedPacket_default
+              let s := { s with f_segmentedPackets := mp_ }
+              let (el19, t18) ← Decoder_SegmentedPacket_addSegment_obj el19 m v_packetPtr (sext 32 64 v_curSize) t15 t16 t17
+              let s := { s with f_segmentedPackets := mapPut s.f_segmentedPackets (v_deviceId, v_streamId) el19 }
+              let (s, v_packets, v_packet) ← (if (!t18) then (do
+                  let s := { s with f_segmentedPackets := mapErase s.f_segmentedPackets (v_deviceId, v_streamId) }
+                  pure (s, v_packets, v_packet))
+                else (do
+                  let (mp_, el21) := mapIndex s.f_segmentedPackets (v_deviceId, v_streamId) Decoder_SegmentedPacket_default
+                  let s := { s with f_segmentedPackets := mp_ }
+                  let (el21, t20) ← Decoder_SegmentedPacket_isAssembled_obj el21 
+                  let s := { s with f_segmentedPackets := mapPut s.f_segmentedPackets (v_deviceId, v_streamId) el21 }
+                  let (s, v_packets, v_packet) ← (if t20 then (do
+                      let (mp_, el23) := mapIndex s.f_segmentedPackets (v_deviceId, v_streamId) Decoder_SegmentedPacket_default
+                      let s := { s with f_segmentedPackets := mp_ }
+                      let (el23, t22) ← Decoder_SegmentedPacket_getPacket_obj el23 
+                      let s := { s with f_segmentedPackets := mapPut s.f_segmentedPackets (v_deviceId, v_streamId) el23 }
+                      let v_packet := t22
+                      let v_packet := { v_packet with deviceId := v_deviceId }
+                      let v_packet := { v_packet with streamId := v_streamId }
+                      let v_packets := v_packets ++ [v_packet]
+                      let s := { s with f_segmentedPackets := mapErase s.f_segmentedPackets (v_deviceId, v_streamId) }
+                      pure (s, v_packets, v_packet))
+                    else (do
+                      pure (s, v_packets, v_packet)))
+                  pure (s, v_packets, v_packet)))
+              pure (s, v_packets, v_packet)))
+          pure (s, v_packets, v_packetPtr, v_curSize, v_packet)
+    else
+      pure (s, v_packets, v_packetPtr, v_curSize, v_packet)
+
+/-- `ASAM::CMP::Decoder::decode` -/
+def Decoder_decode_obj (fuel : Nat) (s : Decoder_St) (m : Bytes) (a_data : Nat) (a_size : Nat) (ext_Decode : Bytes → Nat → Nat → List PktOut) : Option (Decoder_St × List PktOut) := do
+  if (a_data == 0) then
+    pure (s, [])
+  else
+    if (decide (a_size < 8)) then
+      pure (s, [])
+    else
+      let v_dataPtr := a_data
+      let t1 ← rd m v_dataPtr 1
+      if (t1 == 0) then
+        pure (s, ext_Decode m a_data a_size)
+      else
+        let v_packets := ([] : List PktOut)
+        let v_header := a_data
+        let t2 ← CmpHeader_getDeviceId m v_header
+        let v_deviceId := t2
+        let t3 ← CmpHeader_getStreamId m v_header
+        let v_streamId := t3
+        let t4 ← nonneg 32 1
+        let v_packetPtr := (v_header + t4 * 8)
+        let v_curSize := ((usub 64 a_size 8) % 4294967296)
+        let v_packet := (default : PktOut)
+        let (s, v_packets, v_packet) ← (if (v_curSize == 0) then (do
+            let s := { s with f_segmentedPackets := mapErase s.f_segmentedPackets (v_deviceId, v_streamId) }
+            pure (s, v_packets, v_packet))
+          else (do
+            pure (s, v_packets, v_packet)))
+        let (s, v_packets, v_packetPtr, v_curSize, v_packet) ← Decoder_decode_loop1 fuel s m a_data a_size v_dataPtr v_packets v_header v_deviceId v_streamId v_packetPtr v_curSize v_packet
+        pure (s, v_packets)
+
+/-- `ASAM::CMP::Decoder::isFirstSegment` -/
+def Decoder_isFirstSegment_obj (s : Decoder_St) (m : Bytes) (a_data : Nat) (a_anon1 : Nat) : Option (Decoder_St × Bool) := do
+  let t2 ← MessageHeader_getSegmentType m a_data
+  pure (s, (t2 == 4))
+
+/-- `ASAM::CMP::Decoder::isSegmentedPacket` -/
+def Decoder_isSegmentedPacket_obj (s : Decoder_St) (m : Bytes) (a_data : Nat) (a_anon1 : Nat) : Option (Decoder_St × Bool) := do
+  let t2 ← MessageHeader_getSegmentType m a_data
+  pure (s, (t2 != 0))
+
+def Decoder_untranslated : List (String × String) := []
 
 end AsamCmp.SrcGen
